@@ -103,11 +103,18 @@ def udpclHandler : Handler := fun op j =>
   | "udpcl.dbus" => do
     -- the D-Bus view: per event the typed signals / return values of the model
     let evs ← getArr? j "evs"
-    let evs ← evs.toList.mapM devOf?
+    let evs ← evs.toList.mapM fun o =>
+      match getBool? o "idle" with
+      | some true => some (none : Option Udpcl.DEv)      -- is_transfer_idle(): a query, no event
+      | _ => (devOf? o).map some
     let st0 : Udpcl.DState := { mtu := getNat? j "mtu" }
     let (_, outs) := evs.foldl (fun (acc : Udpcl.DState × List Json) ev =>
-      let (st', obs) := Udpcl.dstep acc.1 ev
-      (st', jarr ((obs.filterMap Udpcl.render).map doutJson) :: acc.2)) (st0, [])
+      match ev with
+      | none => (acc.1, jarr [jobj [("ret", Json.str "is_transfer_idle"),
+          ("val", jobj [("bool", Json.bool (Udpcl.isTransferIdle acc.1))])]] :: acc.2)
+      | some ev =>
+        let (st', obs) := Udpcl.dstep acc.1 ev
+        (st', jarr ((obs.filterMap Udpcl.render).map doutJson) :: acc.2)) (st0, [])
     some (jobj [("outs", jarr outs.reverse)])
   | "udpcl.hist" => do
     -- a D-Bus visible history: {"addr","port","hex"} = datagram, {"pop": id} = recv_bundle_pop_data
